@@ -23,7 +23,7 @@ Definition new_budget (a : list chunk) : nat := 20 * length a + 20.
 Definition started_bound (s : state) : nat :=
   match smpc s with
   | MPlayPrune _ todo kept => length todo + length kept + 1
-  | MPlayAcq _ | MPlayGoSet _ | MPlayHaltInit _ | MPlayOpen _ | MPlayAppend _ => length (sstarted s) + 1
+  | MPlayAcq _ _ | MPlayGoSet _ | MPlayHaltInit _ | MPlayOpen _ | MPlayAppend _ => length (sstarted s) + 1
   | _ => length (sstarted s)
   end.
 
@@ -33,7 +33,7 @@ Definition tail (S : nat) : nat := S + 6.
 
 Definition cur (s : state) (S : nat) : nat :=
   match smpc s with
-  | MPlayAcq a => 8 + S + new_budget a + LOOPW
+  | MPlayAcq a _ => 8 + S + new_budget a + LOOPW
   | MPlayRaiseRel => 1
   | MPlayGoSet _ => 7 + S + LOOPW
   | MPlayHaltInit _ => 6 + S + LOOPW
@@ -69,6 +69,7 @@ Fixpoint cost (sc : list cmd) (S : nat) : nat :=
   match sc with
   | [] => 0
   | CPlay n xs :: r => 1 + (8 + (S + 1) + new_budget (chunkify n xs) + LOOPW) + cost r (S + 1)
+  | CPlayBad n xs k :: r => 1 + (8 + (S + 1) + new_budget (firstn k (chunkify n xs)) + LOOPW) + cost r (S + 1)
   | CClose :: r => 1 + (10 + tail S) + cost r S
   | _ :: r => 1 + 4 + cost r S
   end.
